@@ -330,8 +330,6 @@ def limit_st(draw, layers, qc_pairs, force_last_only=False):
   for l in layers:
     if l["k"] not in classes:
       classes.append(l["k"])
-  has_linear_act = any(l["k"] == "Activation" and l["act"] == "linear"
-                       for l in layers)
   act_pairs = qc_pairs["activation"]
   lin_pairs = qc_pairs["linear"]
 
@@ -389,29 +387,37 @@ def limit_st(draw, layers, qc_pairs, force_last_only=False):
     npat = draw(st.sampled_from([0, 1, 1, 2, 2]))
     import re  # pylint: disable=g-import-not-at-top
     cands = _name_patterns(layers)
-    rel = lambda p: [l for l in layers if re.match(p, l["name"]) and  # pylint: disable=g-long-lambda
-                     (l["k"] in R.WEIGHT_CLASSES or l["k"] == "Activation")]
-    multi = [p for p in cands if len(rel(p)) >= 2]
+    relevant = lambda l: l["k"] in R.WEIGHT_CLASSES or l["k"] == "Activation"  # pylint: disable=g-long-lambda
+    multi = [p for p in cands
+             if len([l for l in layers if re.match(p, l["name"]) and relevant(l)]) >= 2]
+    pats = []
     for _ in range(npat):
       if multi and draw(st.integers(0, 2)) > 0:
         p = draw(st.sampled_from(multi))     # a real group (>= 2 layers)
       else:
         p = draw(st.sampled_from(cands))
-      if any(p == k for k, _ in pairs):
-        continue
-      ml = [l for l in layers if re.match(p, l["name"])]
+      if p not in pats:
+        pats.append(p)
+    # effective membership: the first matching key (dictionary order) wins
+    taken = set()
+    ppairs = []
+    for p in pats:
+      ml = [l for l in layers if re.match(p, l["name"]) and l["name"] not in taken]
+      taken.update(l["name"] for l in ml)
       wl = [l for l in ml if l["k"] in R.WEIGHT_CLASSES]
       al = [l for l in ml if l["k"] == "Activation"]
-      if not wl and not al:
-        continue
       if not wl:
-        e = [act_entry(al)]                  # "^act_[0123]$": [4]
+        # documented form for activation groups: "^act_[0123]$": [4]
+        # (also used for keys that end up matching no quantizable layer)
+        e = [act_entry(al)]
       else:
         e = full_entry(ml, any(l["k"] in R.RNN_CLASSES for l in wl))
         if any(l["act"] == "linear" for l in al) and isinstance(e[0], list):
           e[0] = 8 if _min_bits(qc_pairs["kernel"]) <= 8 else 16
-      pairs.append([p, e])
-    pairs = draw(st.permutations(pairs))
+      ppairs.append([p, e])
+    # class keys never match the (lower-case) layer names, so only the relative
+    # order of the regular-expression keys matters
+    pairs = (ppairs + pairs) if draw(st.booleans()) else (pairs + ppairs)
   pairs = [list(p) for p in pairs]
   if default is not None:
     pairs.append(["default", default])
